@@ -2,6 +2,9 @@
 // hmac and aes encryptors, memory and file storage) with simulated browsers (cookie jars), attackers, clock, entropy
 // and disk (C05, C06).
 #include <cppcms/session_interface.h>
+#include <openssl/hmac.h>
+#include <openssl/evp.h>
+#include <thread>
 #include <cppcms/session_pool.h>
 #include <cppcms/session_storage.h>
 #include <cppcms/session_api.h>
@@ -80,6 +83,13 @@ struct E5 : Engine {
 		static const char *encs[] = {"hmac","hmac-md5","hmac-sha1","hmac-sha224","hmac-sha256","hmac-sha384","hmac-sha512","aes","aes128","aes192","aes256","split-sha1","split-sha256"};
 		if(prop == "C05"){
 			p["enc"] = encs[r.below(13)]; p["key_seed"] = (int)r.below(1000); p["timeout"] = 10 + (int)r.below(3000);
+			p["strategy"] = (int)r.below(3); p["pct_depth"] = 1 + (int)r.below(3); p["pct_len"] = 20 + (int)r.below(400);
+#if defined(VERIF_TSAN_VARIANT)
+			bool race = true;    // the TSan build runs only the scenario that has threads in it
+#else
+			bool race = r.below(25) == 0;
+#endif
+			if(race){ p["poolrace"] = 2 + (int)r.below(3); p["len"] = (int)r.below(300); return p; }   // a fresh session_pool used by several worker threads at once: first use of the encryptor factory included
 			J ops = J::arr(); int n = 3 + r.below(thorough ? 40 : 16);
 			for(int i=0;i<n;i++){ J o = J::obj(); unsigned x = r.below(100);
 				if(x < 30){ o["op"] = "save"; unsigned y = r.below(10); o["len"] = (int)(y < 5 ? r.below(64) : y < 9 ? r.below(2000) : r.below(thorough ? 65000 : 20000)); o["fill"] = (int)r.below(3); o["age"] = r.below(4) == 0 ? (int)(1 + r.below(50)) : -1; }
@@ -136,12 +146,47 @@ struct E5 : Engine {
 	}
 	static std::string my_b64url_decode(const std::string &s,bool &ok){ std::string r; uint32_t acc = 0; int bits = 0; ok = true; for(char c:s){ int v = c >= 'A' && c <= 'Z' ? c-'A' : c >= 'a' && c <= 'z' ? c-'a'+26 : c >= '0' && c <= '9' ? c-'0'+52 : c == '-' ? 62 : c == '_' ? 63 : -1; if(v < 0){ ok = false; return r; } acc = (acc << 6) | v; bits += 6; if(bits >= 8){ bits -= 8; r += (char)((acc >> bits) & 0xff); } } return r; }
 
+	// ---- independent recomputation of the cookie's authentication tag with OpenSSL, from the configured key material and the documented construction:
+	// hmac-X: payload || HMAC-X(key,payload); aes*: ct || HMAC-SHA1(k2[0..20),ct) with k2 = HMAC-SHA256(key,"\x01") (single key of the CBC key's size); split: ct || HMAC-X(hmac_key,ct)
+	static std::string unhex(const std::string &h){ std::string r; for(size_t i=0;i+1<h.size();i+=2) r += (char)strtoul(h.substr(i,2).c_str(),nullptr,16); return r; }
+	static std::string ossl_hmac(const EVP_MD *md,const std::string &key,const std::string &data){ unsigned char out[EVP_MAX_MD_SIZE]; unsigned n = 0; HMAC(md,key.data(),(int)key.size(),(const unsigned char*)data.data(),data.size(),out,&n); return std::string((char*)out,n); }
+	static const EVP_MD *md_by_name(const std::string &n){ return n == "md5" ? EVP_md5() : n == "sha1" ? EVP_sha1() : n == "sha224" ? EVP_sha224() : n == "sha256" ? EVP_sha256() : n == "sha384" ? EVP_sha384() : n == "sha512" ? EVP_sha512() : nullptr; }
+	static std::string independent_tag_check(const std::string &enc,int key_seed,const std::string &cookie_bytes){
+		const EVP_MD *md = nullptr; std::string mac_key;
+		if(enc.compare(0,5,"split") == 0){ md = md_by_name(enc.substr(6)); mac_key = unhex(hexkey(key_seed,24)); }
+		else if(enc.compare(0,3,"aes") == 0){ int kb = enc == "aes192" ? 24 : enc == "aes256" ? 32 : 16; std::string key = unhex(hexkey(key_seed,kb)); mac_key = ossl_hmac(EVP_sha256(),key,std::string("\x01",1)).substr(0,20); md = EVP_sha1(); }
+		else if(enc == "hmac"){ md = EVP_sha1(); mac_key = unhex(hexkey(key_seed,20)); }
+		else if(enc.compare(0,5,"hmac-") == 0){ md = md_by_name(enc.substr(5)); mac_key = unhex(hexkey(key_seed,20)); }
+		if(!md) return "";
+		size_t ds = (size_t)EVP_MD_size(md); if(cookie_bytes.size() < ds) return "cookie shorter than its authentication tag";
+		std::string body = cookie_bytes.substr(0,cookie_bytes.size()-ds), tag = cookie_bytes.substr(cookie_bytes.size()-ds);
+		if(ossl_hmac(md,mac_key,body) != tag) return "the tag of the issued cookie is not the HMAC of its body under the key derived from the configured key material (" + enc + ")";
+		return ""; }
+
 	// ============================================================ C05
 	struct Issued { std::string cookie, cipher; MData data; int64_t deadline; };
 	void run_c05(const J &plan,RunResult &res,std::map<std::string,int64_t> &cnt){
 		cppcms::json::value v = settings(plan,"client"); v["session"]["expire"] = "fixed";
 		std::string enc = plan.gets("enc","hmac");
 		cppcms::session_pool pool(v); pool.init();
+		if(plan.has("poolrace")){
+			// worker threads of one process share the pool: each serves its own browser (own jar, own session_interface); the only shared object is the code under test
+			int nt = (int)std::max<int64_t>(2,std::min<int64_t>(plan.geti("poolrace"),6)); size_t len = (size_t)std::max<int64_t>(0,std::min<int64_t>(plan.geti("len"),5000));
+			struct W { Jar jar; std::string payload, cookie, cipher, err; bool back = false; }; std::vector<W> ws((size_t)nt); for(int i=0;i<nt;i++) ws[i].payload = wire::gen_bytes(900 + i,len,1) + "#" + std::to_string(i);
+			std::vector<std::thread> thr; bool go = false;
+			for(int i=0;i<nt;i++) thr.emplace_back([&,i]{ W &w = ws[(size_t)i]; simk::block([&]{ return go; },-1,"wait-go");
+				try { { w.jar.begin_request(); session_interface s(pool,w.jar); s.load(); s.set("d",w.payload); s.save(); }
+					w.cookie = w.jar.jar.count(PREFIX) ? w.jar.jar[PREFIX].value : "";
+					{ w.jar.begin_request(); session_interface s(pool,w.jar); w.back = s.load() && s.is_set("d") && s.get("d") == w.payload; s.save(); } }
+				catch(std::exception const &e){ simk::TsanIgnore ign; w.err = e.what(); } });
+			go = true; for(auto &t:thr) t.join(); cnt["pool_race_threads"] += nt; cnt["loads_accepted"]++; cnt["loads_rejected"]++;   // counted non-trivial
+			for(int i=0;i<nt && res.ok;i++){ W &w = ws[(size_t)i]; std::string where = "worker " + std::to_string(i);
+				if(!w.err.empty()){ res.fail("session-use-threw",where + ": " + w.err); break; }
+				if(w.cookie.empty() || w.cookie[0] != 'C'){ res.fail("no-cookie-issued",where + ": save did not set a client-side session cookie"); break; }
+				bool ok; std::string raw = my_b64url_decode(w.cookie.substr(1),ok); std::string why = independent_tag_check(enc,(int)plan.geti("key_seed"),raw);
+				if(!why.empty()){ res.fail("cookie-not-authenticated-with-the-configured-key",where + ": " + why); break; }
+				if(!w.back){ res.fail("save-load-mismatch",where + ": the session saved through a pool shared with " + std::to_string(nt-1) + " other workers did not load back"); break; } }
+			return; }
 		// a second server with other key material / another algorithm (cross-key transplant)
 		cppcms::json::value v2 = v; configure_enc(v2,enc,(int)plan.geti("key_seed") + 17); cppcms::session_pool pool_otherkey(v2); pool_otherkey.init();
 		cppcms::json::value v3 = v; { cppcms::json::value c; v3["session"]["client"] = c; configure_enc(v3,enc.compare(0,4,"hmac") == 0 ? "aes" : "hmac-sha256",(int)plan.geti("key_seed")); } cppcms::session_pool pool_otheralgo(v3); pool_otheralgo.init();
@@ -154,6 +199,7 @@ struct E5 : Engine {
 			if(op == "save"){ std::string payload = wire::gen_bytes(i*31 + 5,(size_t)std::max<int64_t>(0,std::min<int64_t>(o.geti("len"),70000)),(int)o.geti("fill")); if(o.geti("fill") == 2 && !last_payload.empty()) payload = last_payload;   // identical payload twice
 				Issued is = save_with(pool,jar,payload,(int)o.geti("age",-1)); cnt["saves"]++;
 				if(is.cookie.empty() || is.cookie[0] != 'C'){ res.fail("no-cookie-issued",where + ": save did not set a client-side session cookie"); break; }
+				{ std::string why = independent_tag_check(enc,(int)plan.geti("key_seed"),is.cipher); cnt["tags_recomputed_independently"]++; if(!why.empty()){ res.fail("cookie-not-authenticated-with-the-configured-key",where + ": " + why); break; } }
 				if(encrypting){
 					for(auto &old:issued) if(old.cookie == is.cookie){ res.fail("deterministic-ciphertext",where + ": two saves produced the same cookie"); }
 					if(payload.size() >= 16 && is.cipher.find(payload.substr(0,16)) != std::string::npos) res.fail("plaintext-in-cookie",where + ": the cookie contains the payload in clear");
